@@ -1,11 +1,15 @@
 //! lv-gen: shared generators and independent reference implementations.
 pub mod blob;
 pub mod chain;
+pub mod hdrref;
+pub mod longchain;
 pub mod mutate;
+pub mod panicsite;
 pub mod proofrefs;
 pub mod ranges;
 pub mod refs;
 pub mod square;
+pub mod sqx;
 
 #[cfg(test)]
 mod tests {
